@@ -11,9 +11,11 @@ import (
 	"context"
 	"crypto/sha256"
 	"encoding/base64"
+	"encoding/hex"
 	"fmt"
 	"math/big"
 	mrand "math/rand"
+	"regexp"
 	"strings"
 	"sync"
 	"time"
@@ -831,6 +833,58 @@ func famForge(r *Rng, o *Out, tier string) {
 				}
 			}
 		}
+	}
+	// the REFUSAL must not hand the forger what it lacks: whatever 32-byte value (64 hex digits) the error text of a
+	// refused forgery contains - for the token, or for a discharge - is tried as the tail; it must stay refused (a
+	// "better diagnostics" message that prints the tail the verifier computed is a signing oracle)
+	{
+		verdict := "sound"
+		hexRun := regexp.MustCompile(`[0-9a-fA-F]{64}`)
+		for i := 0; i < 12 && verdict == "sound"; i++ {
+			key := r.Bytes(32)
+			m, _ := macaroon.New(r.Bytes(8), "https://api.fly.io/v1", key)
+			m.Add(r.plainCav(1))
+			m.Add(r.plainCav(1))
+			forged, err := macaroon.Decode(mustEnc(m))
+			if err != nil {
+				continue
+			}
+			forged.UnsafeCaveats.Caveats = forged.UnsafeCaveats.Caveats[1:] // the first caveat dropped
+			forged.Tail = make([]byte, 32)
+			for round := 0; round < 3 && verdict == "sound"; round++ {
+				f2, err := macaroon.Decode(mustEnc(forged))
+				if err != nil {
+					break
+				}
+				_, verr := f2.Verify(key, nil, nil)
+				if verr == nil {
+					verdict = "forgery:tail-learnt-from-the-refusal-text-accepted"
+					break
+				}
+				cands := hexRun.FindAllString(verr.Error(), -1)
+				if len(cands) == 0 {
+					break
+				}
+				progressed := false
+				for _, c := range cands {
+					if t, derr := hex.DecodeString(c); derr == nil && !bytes.Equal(t, forged.Tail) {
+						forged.Tail = t
+						f3, _ := macaroon.Decode(mustEnc(forged))
+						if f3 != nil {
+							if _, e := f3.Verify(key, nil, nil); e == nil {
+								verdict = "forgery:tail-learnt-from-the-refusal-text-accepted"
+							}
+						}
+						progressed = true
+					}
+				}
+				if !progressed {
+					break
+				}
+			}
+			o.count("refusal-text-oracle")
+		}
+		o.emit("(const sound)", verdict)
 	}
 	// through the bundle layer (bundle.WithKey / WithKeys, the observation point the property names): a token under a
 	// key-id the authority holds NO key for, its chain started from the empty key or from 32 zero bytes (HMAC pads
@@ -2310,8 +2364,49 @@ func appAttestationRun(r *Rng) string {
 	return "sound"
 }
 
+// Add's guards judge the caveats it APPENDS: an attestation (bare or wrapped) behind arguments that de-duplication
+// drops - a caveat the token already carries, the same caveat twice - is refused like one that stands alone, on a
+// token and through Bundle.Attenuate on a verified bundle
+func dedupThenAttestationRun(r *Rng) string {
+	key := r.Bytes(32)
+	loc := "https://api.fly.io/v1"
+	have := &flyio.Organization{ID: 7, Mask: resset.ActionAll}
+	root, _ := macaroon.New([]byte("kid"), loc, key)
+	root.Add(have)
+	uid := auth.FlyioUserID(666)
+	wrapped := &resset.IfPresent{Ifs: macaroon.NewCaveatSet(&uid), Else: resset.ActionAll}
+	fresh := &macaroon.ValidityWindow{NotBefore: 0, NotAfter: 1 << 40}
+	lists := [][]macaroon.Caveat{{have, &uid}, {have, wrapped}, {fresh, fresh, &uid}, {have, have, fresh, &uid}, {&uid}, {fresh, &uid}}
+	for i, cs := range lists {
+		m, err := macaroon.Decode(mustEnc(root))
+		if err != nil {
+			return "harness-error"
+		}
+		if m.Add(cs...) == nil {
+			return fmt.Sprintf("attestation-behind-dropped-duplicates-accepted-by-Add:%d", i)
+		}
+		s, _ := root.String()
+		b, err := bundle.ParseBundle(loc, "FlyV1 "+s)
+		if err != nil {
+			return "harness-error(bundle)"
+		}
+		v := bundle.WithKey([]byte("kid"), key, nil)
+		if _, err := b.Verify(context.Background(), v); err != nil {
+			return "harness-error(verify)"
+		}
+		aerr := b.Attenuate(cs...)
+		got := 0
+		bundle.ForEach(b, func(vm *bundle.VerifiedMacaroon) { got += len(macaroon.GetCaveats[*auth.FlyioUserID](vm.Caveats)) })
+		if aerr == nil || got != 0 {
+			return fmt.Sprintf("attestation-behind-dropped-duplicates-accepted-by-Attenuate:%d:obtainable=%d", i, got)
+		}
+	}
+	return "sound"
+}
+
 func famAttest(r *Rng, o *Out, tier string) {
 	o.emit("(const sound)", appAttestationRun(r))
+	o.emit("(const sound)", dedupThenAttestationRun(r))
 	n := 40
 	if tier == "thorough" {
 		n = 600
